@@ -219,6 +219,30 @@ func TestC01(t *testing.T) {
 		}
 		relational(t, a)
 	}
+	// second pass: all tables of all spaces have now been built and used - decoding must not depend on which
+	// other space was used earlier in the process
+	for i := range sp.Spaces {
+		a := &sp.Spaces[i]
+		for _, bits := range []int{8, 16} {
+			es := entries8
+			if bits == 16 {
+				es = entries16
+			}
+			for _, e := range es[:2] {
+				if (e == "From8Bit" || e == "From16Bit") && a.From8 == nil {
+					continue
+				}
+				for code := 0; code < 1<<bits; code++ {
+					c := Case{a.Name, e, bits, code}
+					ev.Eval(1)
+					if kind, what := check(c); kind != "" {
+						ev.Violation("decode", c.Space+"/"+c.Entry+"/second-pass-"+kind, "after every space's tables were used: "+what, c)
+						break
+					}
+				}
+			}
+		}
+	}
 	ev.Sample(map[string]any{"space": "srgb", "entry": "From16Bit", "code": 12345, "got": sp.Spaces[0].From16(12345), "published_eotf": ref.EOTF(ref.SRGB, 12345.0/65535)})
 	ev.Sample(map[string]any{"space": "adobergb", "entry": "From8Bit", "code": 1, "got": sp.Spaces[1].From8(1), "published_eotf": ref.EOTF(ref.AdobeRGB, 1.0/255)})
 	ev.Sample(map[string]any{"space": "prophotorgb", "entry": "From16Bit", "code": 2047, "got": sp.Spaces[2].From16(2047), "published_eotf": ref.EOTF(ref.ProPhoto, 2047.0/65535)})
